@@ -286,7 +286,7 @@ var fixTypeClass = map[string]string{
 
 func c15R3(c *Ctx) {
 	p := c.P
-	fn := p.Func(modPath, "validateField")
+	fn := p.fieldTypeSwitchFn()
 	name := FuncName(fn)
 	specTypes, err := specFieldTypes(p.RepoDir)
 	if err != nil {
